@@ -278,6 +278,34 @@ func guardExits(h *ssa.Function, cl *ssa.Call, g ir.Guard, depth int) (bad []hel
 					break
 				}
 			}
+			// `return inner(...)` handing back the error / pointer result of the very call the guard is
+			// about: the exit is good when that result is nil (resp. non-nil) and bad, with the result
+			// known, otherwise
+			if !split {
+				for i, v := range ret.Results {
+					if _, isK := v.(*ssa.Const); isK {
+						continue
+					}
+					isErr := ir.IsErrorType(v.Type())
+					isPtr := nilable(v.Type())
+					if !isErr && !isPtr {
+						continue
+					}
+					nilK := ssa.NewConst(nil, v.Type())
+					if ok, passTrue := g(ir.Cond{V: &ssa.BinOp{Op: token.EQL, X: v, Y: nilK}}); ok {
+						known := classifyExit(h, ret)
+						if passTrue { // guard passes when v == nil: the bad outcome is v != nil
+							known[i] = kNonNil
+						} else {
+							known[i] = kNil
+						}
+						bad = append(bad, helperExit{ret, known})
+						good++
+						split = true
+						break
+					}
+				}
+			}
 			if !split {
 				bad = append(bad, helperExit{ret, classifyExit(h, ret)})
 			}
@@ -471,6 +499,17 @@ func returnsGuardValue(h *ssa.Function, g ir.Guard) bool {
 			continue
 		}
 		for _, v := range ret.Results {
+			if _, isK := v.(*ssa.Const); isK {
+				continue
+			}
+			// an error / pointer result that is the subject of the guard's nil test
+			isPtr := nilable(v.Type())
+			if ir.IsErrorType(v.Type()) || isPtr {
+				if ok2, _ := g(ir.Cond{V: &ssa.BinOp{Op: token.EQL, X: v, Y: ssa.NewConst(nil, v.Type())}}); ok2 {
+					return true
+				}
+				continue
+			}
 			if bt, isB := v.Type().Underlying().(*types.Basic); !isB || bt.Kind() != types.Bool {
 				continue
 			}
@@ -486,6 +525,102 @@ func returnsGuardValue(h *ssa.Function, g ir.Guard) bool {
 				return true
 			}
 		}
+	}
+	return false
+}
+
+// PassEdgesThrough: the pass edges of g in fn, including the tests fn makes on
+// the result of a module helper that merely hands back the guard's subject —
+// `ok, err := forward(...)` with `func forward(...) (bool, error) { return inner(...) }`:
+// the edge `ok == true` of the caller is a pass edge of "inner(...) == true".
+func PassEdgesThrough(fn *ssa.Function, g ir.Guard) []ir.Edge {
+	out := ir.PassEdges(fn, g)
+	for _, b := range fn.Blocks {
+		for _, in := range b.Instrs {
+			cl, ok := in.(*ssa.Call)
+			if !ok {
+				continue
+			}
+			h := moduleHelper(cl, fn)
+			if h == nil {
+				continue
+			}
+			undo := ir.BindParams(h, cl.Common().Args)
+			nres := h.Signature.Results().Len()
+			for i := 0; i < nres; i++ {
+				// every return must hand back an instance of g at result i with the same polarity
+				n, agree, passTrue := 0, true, false
+				isBool := false
+				if bt, isB := h.Signature.Results().At(i).Type().Underlying().(*types.Basic); isB && bt.Kind() == types.Bool {
+					isBool = true
+				}
+				isErr := ir.IsErrorType(h.Signature.Results().At(i).Type())
+				if !isBool && !isErr {
+					continue
+				}
+				for _, hb := range h.Blocks {
+					ret, isRet := hb.Instrs[len(hb.Instrs)-1].(*ssa.Return)
+					if !isRet || i >= len(ret.Results) {
+						continue
+					}
+					v := ret.Results[i]
+					var okG, pt bool
+					if isBool {
+						okG, pt = g(ir.Cond{V: v})
+					} else {
+						okG, pt = g(ir.Cond{V: &ssa.BinOp{Op: token.EQL, X: v, Y: ssa.NewConst(nil, v.Type())}})
+					}
+					if !okG || (n > 0 && pt != passTrue) {
+						agree = false
+					}
+					passTrue = pt
+					n++
+				}
+				if n == 0 || !agree {
+					continue
+				}
+				for _, cd := range ir.Conds(fn) {
+					var subj ssa.Value
+					eqNil := false
+					if isBool {
+						subj = cd.V
+					} else if x, neq, okN := ir.NilCmp(cd.V); okN {
+						subj, eqNil = x, !neq
+					} else {
+						continue
+					}
+					hit := false
+					if ex, isEx := subj.(*ssa.Extract); isEx && ex.Tuple == ssa.Value(cl) && ex.Index == i {
+						hit = true
+					} else if nres == 1 && subj == ssa.Value(cl) {
+						hit = true
+					}
+					if !hit {
+						continue
+					}
+					// caller's condition true <=> (isBool: result true) / (isErr: result==nil iff eqNil)
+					condTrueMeansPass := passTrue
+					if !isBool {
+						condTrueMeansPass = passTrue == eqNil
+					}
+					idx := cd.FalseIdx()
+					if condTrueMeansPass {
+						idx = cd.TrueIdx()
+					}
+					out = append(out, ir.Edge{From: cd.If.Block(), Idx: idx})
+				}
+			}
+			undo()
+		}
+	}
+	return out
+}
+
+// nilable: a pointer, slice or map type (a value whose nil test a guard may be about).
+func nilable(t types.Type) bool {
+	switch t.Underlying().(type) {
+	case *types.Pointer, *types.Slice, *types.Map:
+		return true
 	}
 	return false
 }
